@@ -12,7 +12,7 @@ import (
 )
 
 func init() {
-	register("C06", "Decides the emission discipline structurally, for every TTL and identifier base: (R06.1) in every probe builder the TTL / hop-limit field of the IP layer literal originates from SendProbe's ttl parameter through conversions only (builder terms are lifted through the call chain into SendProbe's frame); (R06.2) every gopacket.SerializeLayers call of a builder gets options with FixLengths and ComputeChecksums both constant true, and every TCP/UDP/ICMPv6 layer has SetNetworkLayerForChecksum called with an IP layer and its error tested; (R06.3) source/destination addresses and ports originate from run-invariant receiver fields only, the very fields the matchers' role table names (cross-check of the frozen roles against the builder on every run), and the sink is given the target address; (R06.4) the per-probe identifier is an injective affine function of the widened ttl evaluated in at least 16 bits (Paris-mode rand.Uint32 is the documented probabilistic exception); (R06.5) each engine has exactly one SendProbe call, in a counted loop from int(MinTTL) to int(MaxTTL) stepping by one, paced (Sleep / timer on every path to the next iteration), the parallel sender re-tests its cancellable context before every send and the receiver cancels it on every accepted destination reply, the serial engine leaves the loop on a destination reply; (R06.6) the endpoints reported in the run originate from the same fields the builder puts on the wire. That gopacket emits correct lengths/checksums given those options is trusted; real pacing on a clock and 32-bit random collisions are not decided. (R06.7) The IP version and protocol / next-header constants of each probe literal agree with the layers serialised after it; identifiers computed by a module helper are decided through the helper's return paths (each injective in the ttl, path selection independent of the ttl).", runC06)
+	register("C06", "Decides the emission discipline structurally, for every TTL and identifier base: (R06.1) in every probe builder the TTL / hop-limit field of the IP layer literal originates from SendProbe's ttl parameter through conversions only (builder terms are lifted through the call chain into SendProbe's frame); (R06.2) every gopacket.SerializeLayers call of a builder gets options with FixLengths and ComputeChecksums both constant true, and every TCP/UDP/ICMPv6 layer has SetNetworkLayerForChecksum called with an IP layer and its error tested; (R06.3) source/destination addresses and ports originate from run-invariant receiver fields only, the very fields the matchers' role table names (cross-check of the frozen roles against the builder on every run), and the sink is given the target address; (R06.4) the per-probe identifier is an injective affine function of the widened ttl evaluated in at least 16 bits (Paris-mode rand.Uint32 is the documented probabilistic exception); (R06.5) each engine has exactly one SendProbe call, in a counted loop from int(MinTTL) to int(MaxTTL) stepping by one, paced (Sleep / timer on every path to the next iteration), the parallel sender re-tests its cancellable context before every send and the receiver cancels it on every accepted destination reply, the serial engine leaves the loop on a destination reply; (R06.6) the endpoints reported in the run originate from the same fields the builder puts on the wire. That gopacket emits correct lengths/checksums given those options is trusted; real pacing on a clock and 32-bit random collisions are not decided. (R06.7) The IP version and protocol / next-header constants of each probe literal agree with the layers serialised after it; identifiers computed by a module helper are decided through the helper's return paths (each injective in the ttl, path selection independent of the ttl). For the SYN driver R06.4 is decided on the inlined paths of SendProbe to the wire write: the IPv4 Id is injective in ttl over a run-invariant base, or the TCP Seq is drawn from math/rand on that very path (paris mode). R06.5 recognises, next to the cancellable context, a stop flag (atomic.Bool the receiver sets on a destination reply) and demands the stop test on every path to the send.", runC06)
 	darwinRules["C06"] = runC06
 }
 
